@@ -60,6 +60,7 @@ type Datagram struct {
 	decided bool
 	stage   int
 	Handed  int
+	pairs   int // Shape.EventFaultPairs: failures / events already produced in front of this datagram
 }
 
 // Deviation names.
@@ -93,16 +94,23 @@ func MayFail(dev int) bool { return dev == DevDataFirst }
 // Shape fixes header details of what the simulated kernel sends that the small default
 // alphabet holds constant; the sweeps enumerate them one at a time.
 type Shape struct {
-	ReplyFlags    uint16 // ORed into nlmsg_flags of every acknowledgement / data / done message
-	EventType     uint16 // record type of unsolicited events (0 = 1300)
-	EventFlags    uint16 // nlmsg_flags of unsolicited events
-	ForceEvents   int    // this many unsolicited events in front of EVERY datagram (no deviation budget spent)
-	Errno         int    // when non-zero: the verdict menu is {0, Errno}
-	ErrnoAlways   bool   // with Errno: every request is answered with it (no choice)
-	ExtAck        int    // extended acknowledgements (NETLINK_EXT_ACK): 1 = capped ACK (NLM_F_CAPPED|NLM_F_ACK_TLVS, no request payload echoed) followed by NLMSGERR_ATTR_MSG / ATTR_OFFS attributes, 2 = uncapped with attributes after the echoed request
-	SeqStart      uint32 // first sequence number the transport hands out is SeqStart+1 (0 = 100)
-	RecvLatencyMs int    // every Receive call takes this long (virtual clock): a transport with a receive timeout, a loaded host
-	Buffers       int    // the transport rotates between this many receive buffers (0/1 = one reused buffer); what it
+	ReplyFlags  uint16 // ORed into nlmsg_flags of every acknowledgement / data / done message
+	EventType   uint16 // record type of unsolicited events (0 = 1300)
+	EventFlags  uint16 // nlmsg_flags of unsolicited events
+	ForceEvents int    // this many unsolicited events in front of EVERY datagram (no deviation budget spent)
+	Errno       int    // when non-zero: the verdict menu is {0, Errno}
+	ErrnoAlways bool   // with Errno: every request is answered with it (no choice)
+	ExtAck      int    // extended acknowledgements (NETLINK_EXT_ACK): 1 = capped ACK (NLM_F_CAPPED|NLM_F_ACK_TLVS, no request payload echoed) followed by NLMSGERR_ATTR_MSG / ATTR_OFFS attributes, 2 = uncapped with attributes after the echoed request
+	SeqStart    uint32 // first sequence number the transport hands out is SeqStart+1 (0 = 100)
+	// EchoSeqDelta / EchoFill: what follows the errno word of an acknowledgement (the echoed request) - see Send
+	EchoSeqDelta uint32
+	EchoFill     int
+	// EventFaultPairs: in front of every ACK / reply, this many (one transient failure, one unsolicited event) pairs;
+	// EventFaultPairsAlt alternates EINTR and EAGAIN
+	EventFaultPairs    int
+	EventFaultPairsAlt bool
+	RecvLatencyMs      int // every Receive call takes this long (virtual clock): a transport with a receive timeout, a loaded host
+	Buffers            int // the transport rotates between this many receive buffers (0/1 = one reused buffer); what it
 	// handed out stays valid until the NEXT Receive only - every buffer is poisoned when it comes round again
 	WrapErrors int // how receive failures are reported: 0 bare syscall.Errno, 1 fmt.Errorf("%w"), 2 *os.SyscallError
 }
@@ -273,6 +281,22 @@ func (s *Sim) Send(msg syscall.NetlinkMessage) (uint32, error) {
 	req.Errno = errno
 	if req.Flags&syscall.NLM_F_ACK != 0 || errno != 0 {
 		a := Ack(req, errno)
+		if d := s.Shape.EchoSeqDelta; d != 0 && len(a) >= HdrLen+4+HdrLen {
+			// a renumbering transport (the Netlink field is an interface for exactly such layers): the numbers the client
+			// sees (returned by Send, in reply headers) are the transport's, the request echoed INSIDE the acknowledgement
+			// still carries the number that was on the wire
+			binary.LittleEndian.PutUint32(a[HdrLen+4+8:], req.Seq+d)
+		}
+		switch s.Shape.EchoFill {
+		case 1: // the echoed request header zero-filled
+			for i := HdrLen + 4; i < len(a); i++ {
+				a[i] = 0
+			}
+		case 2: // ... or all ones
+			for i := HdrLen + 4; i < len(a); i++ {
+				a[i] = 0xFF
+			}
+		}
 		if s.Shape.ExtAck != 0 {
 			a = ExtAck(req, errno, s.Shape.ExtAck == 1)
 		}
@@ -342,6 +366,24 @@ func (s *Sim) Receive(nonBlocking bool, p libaudit.NetlinkParser) ([]syscall.Net
 		return nil, s.wrapErr(syscall.EAGAIN)
 	}
 	d := s.Q[0]
+	if k := s.Shape.EventFaultPairs; k > 0 && (d.Kind == "ack" || d.Kind == "data") && d.pairs < 2*k {
+		// a busy system: in front of the datagram k unsolicited events, each preceded by ONE transient failure (never two
+		// in a row) - what a daemon sees right after registering, while the kernel drains its hold queue
+		d.pairs++
+		if d.pairs%2 == 1 {
+			e := syscall.EINTR
+			if (d.pairs/2)%2 == 1 && s.Shape.EventFaultPairsAlt {
+				e = syscall.EAGAIN
+			}
+			s.Log = append(s.Log, "recv="+e.Error())
+			return nil, s.wrapErr(e)
+		}
+		evd := &Datagram{ID: s.nextID, Bytes: s.eventDatagram(d.pairs / 2), Kind: "event", decided: true, stage: 3}
+		s.nextID++
+		s.All = append(s.All, evd)
+		s.Q = append([]*Datagram{evd}, s.Q...)
+		d = evd
+	}
 	if !d.decided && !s.NoDeviations {
 		fail := func(dev int) ([]syscall.NetlinkMessage, error) {
 			k, e, alt := 1, syscall.EINTR, false
